@@ -72,7 +72,7 @@ def gen_spec(seed, index, tier):
     rng = core.rng_of(seed, "c17")
     calcs = peers.ALL_CALCULATORS + ["vasp", "vasp"]  # vasp is the one format whose output carries positions: more delivery runs
     calc = calcs[index % len(calcs)] if rng.random() < 0.8 else rng.choice(calcs)
-    names = ["nacl_prim", "cscl", "hcp", "bct", "tric", "mono", "wurtzite", "rutile_mixed", "nacl_mixed_out", "ortho_c", "rhombo_hex", "nacl", "si", "rutile", "perovskite", "afm_mixed", "bcc_afm"]
+    names = ["nacl_prim", "cscl", "hcp", "bct", "tric", "mono", "wurtzite", "rutile_mixed", "nacl_mixed_out", "ortho_c", "rhombo_hex", "nacl", "si", "rutile", "perovskite", "afm_mixed", "bcc_afm", "bcc_noncollinear"]
     w = World.generate(seed, names=names, max_atoms=rng.choice([8, 16, 16, 24]))
     faulty = (index // len(calcs)) % 3 != 0  # not index % 3: len(calcs) is a multiple of 3 and would tie the fault family to the calculator
     faults = []
@@ -136,6 +136,8 @@ def child_displace(args):
     L = peers.UNITS[calc][0]
     c0 = w.unitcell()
     mm = None if c0.magnetic_moments is None else np.array(c0.magnetic_moments, dtype=float)
+    if mm is not None and mm.ndim == 2 and calc not in ("vasp", "qe"):
+        mm = None  # non-collinear moments: only the MAGMOM-file route (VASP, QE) is documented to carry them
     cell = PhonopyAtoms(symbols=c0.symbols, cell=np.array(c0.cell) / L, scaled_positions=c0.scaled_positions, magnetic_moments=mm)
     out = {"steps": [], "violations": [], "super_magmoms": None}
     if spec.get("_forces_only"):
@@ -555,7 +557,7 @@ def execute(spec):
                                         vals = np.array([float(x) for x in txt.split("=", 1)[1].split()])
                                     except ValueError:
                                         vals = None
-                                if vals is None or vals.shape != want_m.shape or not np.allclose(vals, want_m, atol=1e-8):
+                                if vals is None or vals.shape != np.ravel(want_m).shape or not np.allclose(vals, np.ravel(want_m), atol=1e-8):
                                     V("structure-roundtrip", "%s:MAGMOM-file-order" % calc, magmom_file=(txt or "")[:200], atoms_in_written_file=want_m.tolist())
                                 probes["magmom_file_checked:%s" % calc] = 1
                         # precision the format itself carries: position error of the read-back file relative to the displacement
